@@ -84,15 +84,6 @@ func evalTF(src string, b map[string]any) (res byte, detail string) {
 	return '?', fmt.Sprintf("%T", v)
 }
 
-func firstLine(s string) string {
-	if i := strings.IndexByte(s, '\n'); i >= 0 {
-		s = s[:i]
-	}
-	if len(s) > 160 {
-		s = s[:160]
-	}
-	return s
-}
 
 func operandSrc(form byte, name string) string {
 	if form == 'e' {
